@@ -422,6 +422,7 @@ func (c *RPCClient) GetCoordinate(node string) (*coordinate.Coordinate, error) {
 
 type monitorHandler struct {
 	client *RPCClient
+	lock   sync.Mutex // guards closed and init; orders Handle against Cleanup
 	closed bool
 	init   bool
 	initCh chan<- error
@@ -430,18 +431,34 @@ type monitorHandler struct {
 }
 
 func (mh *monitorHandler) Handle(resp *responseHeader) {
+	mh.lock.Lock()
+	// The stream may have been stopped after the listener looked this
+	// handler up: the channels are closed then
+	if mh.closed {
+		mh.lock.Unlock()
+		return
+	}
+
 	// Initialize on the first response
 	if !mh.init {
 		mh.init = true
 		mh.initCh <- strToError(resp.Error)
+		mh.lock.Unlock()
 		return
 	}
+	mh.lock.Unlock()
 
 	// Decode logs for all other responses
 	var rec logRecord
 	if err := mh.client.dec.Decode(&rec); err != nil {
 		log.Printf("[ERR] Failed to decode log: %v", err)
 		mh.client.deregisterHandler(mh.seq)
+		return
+	}
+
+	mh.lock.Lock()
+	defer mh.lock.Unlock()
+	if mh.closed {
 		return
 	}
 	select {
@@ -452,6 +469,8 @@ func (mh *monitorHandler) Handle(resp *responseHeader) {
 }
 
 func (mh *monitorHandler) Cleanup() {
+	mh.lock.Lock()
+	defer mh.lock.Unlock()
 	if !mh.closed {
 		if !mh.init {
 			mh.init = true
@@ -504,6 +523,7 @@ func (c *RPCClient) Monitor(level logutils.LogLevel, ch chan<- string) (StreamHa
 
 type streamHandler struct {
 	client  *RPCClient
+	lock    sync.Mutex // guards closed and init; orders Handle against Cleanup
 	closed  bool
 	init    bool
 	initCh  chan<- error
@@ -512,18 +532,34 @@ type streamHandler struct {
 }
 
 func (sh *streamHandler) Handle(resp *responseHeader) {
+	sh.lock.Lock()
+	// The stream may have been stopped after the listener looked this
+	// handler up: the channels are closed then
+	if sh.closed {
+		sh.lock.Unlock()
+		return
+	}
+
 	// Initialize on the first response
 	if !sh.init {
 		sh.init = true
 		sh.initCh <- strToError(resp.Error)
+		sh.lock.Unlock()
 		return
 	}
+	sh.lock.Unlock()
 
 	// Decode logs for all other responses
 	var rec map[string]any
 	if err := sh.client.dec.Decode(&rec); err != nil {
 		log.Printf("[ERR] Failed to decode stream record: %v", err)
 		sh.client.deregisterHandler(sh.seq)
+		return
+	}
+
+	sh.lock.Lock()
+	defer sh.lock.Unlock()
+	if sh.closed {
 		return
 	}
 	select {
@@ -534,6 +570,8 @@ func (sh *streamHandler) Handle(resp *responseHeader) {
 }
 
 func (sh *streamHandler) Cleanup() {
+	sh.lock.Lock()
+	defer sh.lock.Unlock()
 	if !sh.closed {
 		if !sh.init {
 			sh.init = true
@@ -586,6 +624,7 @@ func (c *RPCClient) Stream(filter string, ch chan<- map[string]any) (StreamHandl
 
 type queryHandler struct {
 	client *RPCClient
+	lock   sync.Mutex // guards closed and init; orders Handle against Cleanup
 	closed bool
 	init   bool
 	initCh chan<- error
@@ -595,12 +634,22 @@ type queryHandler struct {
 }
 
 func (qh *queryHandler) Handle(resp *responseHeader) {
+	qh.lock.Lock()
+	// The query may have been stopped after the listener looked this
+	// handler up: the channels are closed then
+	if qh.closed {
+		qh.lock.Unlock()
+		return
+	}
+
 	// Initialize on the first response
 	if !qh.init {
 		qh.init = true
 		qh.initCh <- strToError(resp.Error)
+		qh.lock.Unlock()
 		return
 	}
+	qh.lock.Unlock()
 
 	// Decode the query response
 	var rec queryRecord
@@ -610,6 +659,17 @@ func (qh *queryHandler) Handle(resp *responseHeader) {
 		return
 	}
 
+	if rec.Type == queryRecordDone {
+		// No further records coming
+		qh.client.deregisterHandler(qh.seq)
+		return
+	}
+
+	qh.lock.Lock()
+	defer qh.lock.Unlock()
+	if qh.closed {
+		return
+	}
 	switch rec.Type {
 	case queryRecordAck:
 		select {
@@ -625,16 +685,14 @@ func (qh *queryHandler) Handle(resp *responseHeader) {
 			log.Printf("[ERR] Dropping query response, channel full")
 		}
 
-	case queryRecordDone:
-		// No further records coming
-		qh.client.deregisterHandler(qh.seq)
-
 	default:
 		log.Printf("[ERR] Unrecognized query record type: %s", rec.Type)
 	}
 }
 
 func (qh *queryHandler) Cleanup() {
+	qh.lock.Lock()
+	defer qh.lock.Unlock()
 	if !qh.closed {
 		if !qh.init {
 			qh.init = true
